@@ -2343,6 +2343,130 @@ def gen_session(tree, out, report):
         report["model.py session"] = "untranslatable: internal " + type(e).__name__ + ": " + str(e)
 
 
+# ------------------------------------------------------------------------------------------------ model.py / utils.py: time grid and dates
+DATES_HEADER = """-- GENERATED by harness/translate/gen_rates.py from /repo (summer2/model.py __init__ / _get_ref_idx / get_epoch, summer2/utils.py). Do not edit.
+import Summer.Model.Dates
+set_option linter.unusedVariables false
+namespace Summer.Generated.DatesSrc
+open Summer Summer.Dates
+"""
+
+INIT_PREFIX = [
+    "self.ref_date = ref_date",
+    "if all([isinstance(t, datetime) for t in times]):\n    if (epoch := self.get_epoch()):\n        start_t, end_t = times\n"
+    "        times = (epoch.datetime_to_number(start_t), epoch.datetime_to_number(end_t))\n    else:\n"
+    "        raise TypeError('Times supplied as datetime but no ref_date set')",
+    "start_t, end_t = times",
+    "assert end_t > start_t, 'End time must be greater than start time'",
+    "time_period = end_t - start_t",
+    "num_steps = 1 + time_period / timestep",
+    "msg = f'Time step {timestep} must be less than time period {time_period}'",
+    "assert num_steps >= 1, msg",
+    "msg = f'Time step {timestep} must be a factor of time period {time_period}'",
+    "assert num_steps % 1 == 0, msg",
+    "self.times = np.linspace(start_t, end_t, num=int(num_steps))",
+    "self.timestep = timestep",
+    "if isinstance(infectious_compartments, str):\n    infectious_compartments = [infectious_compartments]",
+    "error_msg = 'Infectious compartments must be a subset of compartments'",
+    "assert all((n in compartments for n in infectious_compartments)), error_msg",
+]
+DATES_MODEL_WANT = {
+    "_get_ref_idx": (["self"], ["if self.ref_date:\n    times = ref_times_to_dti(self.ref_date, self.times)\nelse:\n    times = self.times", "return times"]),
+    "get_epoch": (["self"], ["if self.ref_date:\n    return Epoch(self.ref_date)\nelse:\n    return None"]),
+}
+DATES_UTILS_WANT = {
+    (None, "ref_times_to_dti"): (["ref_date", "times"], ["return pd.DatetimeIndex([ref_date + timedelta(t) for t in times])"]),
+    ("Epoch", "__init__"): (["self", "ref_date", "unit"], ["self.ref_date = ref_date", "self.unit = unit"]),
+    ("Epoch", "number_to_datetime"): (["self", "n"], ["return self.ref_date + n * self.unit"]),
+    ("Epoch", "datetime_to_number"): (["self", "d"], ["return (d - self.ref_date) / self.unit"]),
+}
+
+DATES_LEAN = """
+/-- `utils.py::Epoch.datetime_to_number` (exact; the final float rounding of the quotient is not modelled) -/
+def datetime_to_number (ref_date unit : Int) (d : Int) : Rat := ((d - ref_date : Int) : Rat) / (unit : Rat)
+
+/-- `utils.py::Epoch.number_to_datetime`: `ref_date + n * unit` (`timedelta.__mul__` rounds the exact product to a whole microsecond) -/
+def number_to_datetime (rnd : Rat → Int) (ref_date unit : Int) (n : Rat) : Int := ref_date + rnd (n * (unit : Rat))
+
+/-- `utils.py::ref_times_to_dti`: `[ref_date + timedelta(t) for t in times]` (`timedelta(t)` is `t` days, rounded to a whole microsecond) -/
+def ref_times_to_dti (rnd : Rat → Int) (ref_date : Int) (times : List Rat) : List Int :=
+  times.map (fun t => ref_date + rnd (t * (dayUnit : Rat)))
+
+/-- the time handling at the head of `model.py::CompartmentalModel.__init__` (the first twelve statements, pinned): `none` stands for an
+exception.  `unit` is the unit of the `Epoch` that `get_epoch()` builds (`timedelta(1)` by default); a `datetime` compared with a number
+raises `TypeError`; `time_period / timestep` raises `ZeroDivisionError` for a zero step; `num_steps % 1 == 0` is the fractional-part test;
+`int(num_steps)` truncates. -/
+def init_times (ref_date : Option Int) (unit : Int) (a b : TimeVal) (timestep : Rat) : Option TimeGrid :=
+  let times : Option (TimeVal × TimeVal) :=
+    match a, b with
+    | .date start_t, .date end_t =>
+      (match ref_date with
+        | some ref => some (.num (datetime_to_number ref unit start_t), .num (datetime_to_number ref unit end_t))
+        | none => none)
+    | _, _ => some (a, b)
+  match times with
+  | none => none
+  | some (.num start_t, .num end_t) =>
+    if ¬ (end_t > start_t) then none
+    else if timestep = 0 then none
+    else
+      let time_period := end_t - start_t
+      let num_steps := 1 + time_period / timestep
+      if ¬ (num_steps ≥ 1) then none
+      else if ¬ (fmod1 num_steps = 0) then none
+      else some { refDate := ref_date, times := linspace start_t end_t num_steps.floor.toNat, timestep := timestep }
+  | some (_, _) => none
+
+/-- `model.py::CompartmentalModel._get_ref_idx` -/
+def _get_ref_idx (rnd : Rat → Int) (self : TimeGrid) : List TimeVal :=
+  match self.refDate with
+  | some ref_date => (ref_times_to_dti rnd ref_date self.times).map .date
+  | none => self.times.map .num
+
+end Summer.Generated.DatesSrc
+"""
+
+
+def gen_dates(mtree, utree, out, report):
+    try:
+        cls = [n for n in mtree.body if isinstance(n, ast.ClassDef) and n.name == "CompartmentalModel"]
+        methods = {n.name: n for n in cls[0].body if isinstance(n, ast.FunctionDef)} if cls else {}
+        init = methods.get("__init__")
+        if init is None or [a.arg for a in init.args.args] != ["self", "times", "compartments", "infectious_compartments", "timestep", "ref_date"]:
+            raise Untranslatable("signature of CompartmentalModel.__init__")
+        body = [ast.unparse(st) for st in init.body if not (isinstance(st, ast.Expr) and isinstance(st.value, ast.Constant))]
+        if body[:len(INIT_PREFIX)] != INIT_PREFIX:
+            k = next((i for i, (a, b_) in enumerate(zip(body, INIT_PREFIX)) if a != b_), min(len(body), len(INIT_PREFIX)))
+            raise Untranslatable(f"CompartmentalModel.__init__: statement {k} is not the expected text: " + (body[k][:160] if k < len(body) else "<missing>"))
+        # nothing after the pinned prefix may touch the time grid or the reference date
+        for later in body[len(INIT_PREFIX):]:
+            if any(w in later for w in ("self.times", "self.timestep", "self.ref_date", "ref_date")):
+                raise Untranslatable("CompartmentalModel.__init__: a later statement touches the time grid / reference date: " + later[:120])
+        def check(fn, label, args, wanted):
+            if fn is None:
+                raise Untranslatable(f"{label} not found")
+            if [a.arg for a in fn.args.args] != args:
+                raise Untranslatable(f"signature of {label}")
+            b = [ast.unparse(st) for st in fn.body if not (isinstance(st, ast.Expr) and isinstance(st.value, ast.Constant))]
+            if b != wanted:
+                raise Untranslatable(f"{label} is not the expected text: " + (b[0][:160] if b else "<empty>"))
+        for fname, (args, wanted) in DATES_MODEL_WANT.items():
+            check(methods.get(fname), "CompartmentalModel." + fname, args, wanted)
+        ufuncs = {n.name: n for n in utree.body if isinstance(n, ast.FunctionDef)}
+        ucls = {n.name: {m.name: m for m in n.body if isinstance(m, ast.FunctionDef)} for n in utree.body if isinstance(n, ast.ClassDef)}
+        for (cname, fname), (args, wanted) in DATES_UTILS_WANT.items():
+            fn = ufuncs.get(fname) if cname is None else ucls.get(cname, {}).get(fname)
+            check(fn, (cname + "." if cname else "utils.") + fname, args, wanted)
+        out.append(DATES_LEAN)
+        report["time grid and dates"] = "ok"
+    except Untranslatable as e:
+        report["time grid and dates"] = "untranslatable: " + str(e)
+        out.append("\nend Summer.Generated.DatesSrc\n")
+    except Exception as e:
+        report["time grid and dates"] = "untranslatable: internal " + type(e).__name__ + ": " + str(e)
+        out.append("\nend Summer.Generated.DatesSrc\n")
+
+
 # ------------------------------------------------------------------------------------------------ util.py: binary search
 USRC = "summer2/functions/util.py"
 UHEADER = """-- GENERATED by harness/translate/gen_rates.py from /repo (summer2/functions/util.py). Do not edit.
@@ -2789,6 +2913,23 @@ def main():
     if old != setext:
         with open(sepath, "w") as f:
             f.write(setext)
+    # time grid and dates
+    dtout = [DATES_HEADER]
+    try:
+        with open(os.path.join(REPO, GSRC)) as f:
+            dmtree = ast.parse(f.read())
+        with open(os.path.join(REPO, "summer2/utils.py")) as f:
+            dutree = ast.parse(f.read())
+        gen_dates(dmtree, dutree, dtout, report)
+    except Exception as e:
+        report["time grid and dates"] = "untranslatable: " + type(e).__name__ + ": " + str(e)
+        dtout.append("\nend Summer.Generated.DatesSrc\n")
+    dttext = "\n".join(dtout)
+    dtpath = os.path.join(OUT, "DatesSrc.lean")
+    old = open(dtpath).read() if os.path.exists(dtpath) else None
+    if old != dttext:
+        with open(dtpath, "w") as f:
+            f.write(dttext)
     # util.py
     uout = [UHEADER]
     try:
